@@ -420,7 +420,7 @@ func judgeC09(c c09Case) (v core.Verdict) {
 
 func TestC09(t *testing.T) {
 	core.Run(t, "C09",
-		"template sets with files in nested directories: call sites of include (absolute, ./ and ../ relative, computed names, names that are fmt.Stringers of struct and of string kind; with/without context), exec (with/without context; callee with return at every position: none, top, several, in if, in range, in try/catch, followed by statements that return nothing, return nil, inside an included sub-template) and includeIfExists (existing, missing, unparsable; as statement and as condition), placed at depth 0-3 inside range / block / try / other includes; callees extend 0-2 levels, declare variables, rebind '.', define blocks, yield the caller's blocks, assign the caller's variables; probes after every call site; exec of a name computed by a function that answers differently on every call; one case in forty with more than 1000 includes in one loop; one case in four with some callee files created only after a first execution of the set; oracle = MiniJet reference interpreter; non-trivial = call site at depth>=2 with a callee that rebinds '.' / an exec / an explicit context",
+		"template sets with files in nested directories: call sites of include (absolute, ./ and ../ relative, computed names, name and context both read from the dot of a range, names that are fmt.Stringers of struct and of string kind; with/without context), exec (with/without context; callee with return at every position: none, top, several, in if, in range, in try/catch, followed by statements that return nothing, return nil, inside an included sub-template) and includeIfExists (existing, missing - also with a context expression that would fail if evaluated -, unparsable; as statement and as condition), placed at depth 0-3 inside range / block / try / other includes; callees extend 0-2 levels, declare variables, rebind '.', define blocks, yield the caller's blocks, assign the caller's variables; probes after every call site; exec of a name computed by a function that answers differently on every call; one case in forty with more than 1000 includes in one loop; one case in four with some callee files created only after a first execution of the set; oracle = MiniJet reference interpreter; non-trivial = call site at depth>=2 with a callee that rebinds '.' / an exec / an explicit context",
 		genC09, judgeC09)
 }
 
